@@ -955,15 +955,30 @@ theorem RevOk.step_applyIndexed {s0 s : Sess} (h : RevOk s0 s) (clean : Bool) (s
       · exact h.step_applyInsertion _ _ _ _
       · exact h.step_applyReplace _ _ _ _ _ _
 
+theorem RevOk.step_nestedProxyWith {s0 s : Sess} (h : RevOk s0 s) (clean : Bool) (start len : Nat) (new : Str)
+    (comment : Option Str) (id : Str) (r : Sess × Bool) (hr : nestedProxyWith s clean start len new comment id = some r) :
+    RevOk s0 r.1 := by
+  unfold nestedProxyWith at hr
+  simp only at hr
+  split at hr
+  · injection hr with hr; subst hr; exact h.step_applyIndexed _ _ _ _ _ _
+  · cases hr
+
 theorem RevOk.step_nestedProxyAt {s0 s : Sess} (h : RevOk s0 s) (clean : Bool) (start len : Nat) (new : Str)
     (comment : Option Str) (r : Sess × Bool) (hr : nestedProxyAt s clean start len new comment = some r) : RevOk s0 r.1 := by
   unfold nestedProxyAt at hr
-  simp only at hr
   split at hr
-  · split at hr
-    · injection hr with hr; subst hr; exact h.step_applyIndexed _ _ _ _ _ _
-    · cases hr
+  · exact h.step_nestedProxyWith _ _ _ _ _ _ r hr
   · cases hr
+
+theorem RevOk.step_nestedInsertAt {s0 s : Sess} (h : RevOk s0 s) (clean : Bool) (start : Nat) (new : Str)
+    (comment : Option Str) (r : Sess × Bool) (hr : nestedInsertAt s clean start new comment = some r) : RevOk s0 r.1 := by
+  unfold nestedInsertAt at hr
+  split at hr
+  · cases hr
+  · split at hr
+    · exact h.step_nestedProxyWith _ _ _ _ _ _ r hr
+    · cases hr
 
 theorem RevOk.step_heuristicDirect {s0 s : Sess} (h : RevOk s0 s) (m : HMatch) (e : HEdit) :
     RevOk s0 (heuristicDirect s m e).1 := by
@@ -972,13 +987,15 @@ theorem RevOk.step_heuristicDirect {s0 s : Sess} (h : RevOk s0 s) (m : HMatch) (
   split
   · exact h
   · split
-    · exact h.step_applyIndexed _ _ _ _ _ _
+    · split
+      · rename_i r hr; exact h.step_nestedInsertAt _ _ _ _ r hr
+      · exact h.step_applyIndexed _ _ _ _ _ _
     · split
       · exact h
       · split
         · rename_i r hr
           split at hr
-          · cases hr
+          · exact h.step_nestedInsertAt _ _ _ _ r hr
           · exact h.step_nestedProxyAt _ _ _ _ _ r hr
         · exact h.step_applyIndexed _ _ _ _ _ _
 
